@@ -399,6 +399,66 @@ Section Tags.
   Qed.
 End Tags.
 
+(** ** The start-up read (init_state) *)
+Lemma ser_records_nil rs : ser_records rs = [] -> rs = [].
+Proof.
+  destruct rs as [|r t]; [reflexivity|]. cbn [ser_records]. unfold ser_record, ser_value.
+  intros H. apply (f_equal (@length N)) in H. rewrite !app_length, be64_length in H.
+  cbn [length] in H. lia.
+Qed.
+
+Section InitState.
+  Variable mac : bytes -> bytes -> bytes.
+
+  Lemma init_state_accepts_tagged s n rs t l :
+    init_state mac s n rs t = Some l -> l = rs /\ t = shared_tag mac s n rs.
+  Proof.
+    unfold init_state, check_hmac. destruct (beq t (shared_tag mac s n rs)) eqn:E; [|discriminate].
+    intros H. inversion H; subst l. split; [reflexivity | apply bytes_beq_eq; exact E].
+  Qed.
+
+  Lemma init_state_authentic s n rs : init_state mac s n rs (shared_tag mac s n rs) = Some rs.
+  Proof. unfold init_state, check_hmac. rewrite bytes_beq_refl. reflexivity. Qed.
+
+  Lemma hquery_init_spec s n rs t :
+    init_state mac s n rs t =
+    match hquery (CInit s n rs t) with
+    | [key; m; r] => if beq r (mac key m) then Some rs else None
+    | _ => None
+    end.
+  Proof. reflexivity. Qed.
+
+  Hypothesis mac_inj : forall k m m', mac k m = mac k m' -> m = m'.
+
+  (** an accepted reply is the list the server authenticated: [t] is a tag the server made, for
+      the records [rs0] under a nonce [n0] of the length of the read's nonce *)
+  Lemma init_state_accepts_authenticated s n rs t l n0 rs0 :
+    wf_records rs -> wf_records rs0 ->
+    t = shared_tag mac s n0 rs0 -> length n0 = length n ->
+    init_state mac s n rs t = Some l ->
+    n0 = n /\ (~ Known (n, rs) (n, rs0) -> l = rs0).
+  Proof.
+    intros W W0 Ht Ln H. apply init_state_accepts_tagged in H. destruct H as [-> H].
+    rewrite Ht in H. assert (E : n0 = n) by (eapply (fresh_nonce mac mac_inj); eassumption).
+    subst n0. split; [reflexivity|]. intros NK.
+    assert (X : (n, rs) = (n, rs0)).
+    { apply (input_tag_binding mac mac_inj s); trivial. unfold input_tag. cbn [fst snd]. symmetry. exact H. }
+    inversion X. reflexivity.
+  Qed.
+
+  (** "the store is empty" is accepted only when the server authenticated the empty list — no
+      framing caveat, no condition on the records *)
+  Lemma init_state_empty_authenticated s n t l n0 rs0 :
+    t = shared_tag mac s n0 rs0 -> length n0 = length n ->
+    init_state mac s n [] t = Some l -> n0 = n /\ rs0 = [] /\ l = [].
+  Proof.
+    intros Ht Ln H. apply init_state_accepts_tagged in H. destruct H as [-> H].
+    rewrite Ht in H. apply mac_inj in H. unfold ser_shared in H. apply app_inv_head in H.
+    apply app_eq_len in H; [|exact Ln]. destruct H as [-> H]. cbn [ser_records] in H.
+    apply ser_records_nil in H. repeat split; try reflexivity; exact H.
+  Qed.
+End InitState.
+
 (** ** Fresh nonces over a history of reads *)
 Lemma nonces_fresh_from_spec ns : forall used,
   nonces_fresh_from used ns = true ->
